@@ -277,8 +277,8 @@ theorem runTask_w : ∀ (fuel : Nat) (c : Conn) (n : Nat) (sa : Option Nat), All
     have hc0 := prePoll_clean c n sa
     have hp0 : AllProp (prePoll c n sa) :=
       allProp_of_frame (prePoll_frame c n sa).1 (prePoll_frame c n sa).2 hp
-    have hw := pollConn_w 100000 _ hp0
-    generalize pollConn 100000 (prePoll c n sa) = x at hw ⊢
+    have hw := pollConn_w (connFuel (prePoll c n sa)) _ hp0
+    generalize pollConn (connFuel (prePoll c n sa)) (prePoll c n sa) = x at hw ⊢
     obtain ⟨c1, res⟩ := x
     -- lift the poll's outcome to `c`
     have hw' : (Clean c.env.tr c1.env.tr ∧ AllProp c1) ∨
@@ -465,8 +465,10 @@ def exRd : Conn :=
     env := { tr := { trE false with input := unk } }, scripts := [([.ret (.complete 0)], true)] }
 
 theorem exRd_run : finishedEmpty (runTask 3 exRd 0 none) = true := by
-  rw [runTask_succ, show (100000 : Nat) = 99999 + 1 from rfl,
-    reading_step 99999 (prePoll exRd 0 none) (Req.Parser.new 0 1) _ _ 1 [99, 0, 0, 0, 0, 0, 0] _ rfl rfl rfl
+  have hK : connFuel (prePoll exRd 0 none) = (connFuel (prePoll exRd 0 none) - 1) + 1 := by
+    unfold connFuel; omega
+  rw [runTask_succ, hK,
+    reading_step (connFuel (prePoll exRd 0 none) - 1) (prePoll exRd 0 none) (Req.Parser.new 0 1) _ _ 1 [99, 0, 0, 0, 0, 0, 0] _ rfl rfl rfl
       parse_unk]
   decide +kernel
 
